@@ -138,7 +138,8 @@ a checkpointed database (`Ckpt`: what every flush and every recovery leave, `C02
 INSERT / UPDATE / DELETE statements the plain model accepts (`SpecRun`); then the machine crashes with
 nothing flushed since the checkpoint.  Start-up recovery succeeds, and every table of the plain database
 of ALL acknowledged statements is read back with exactly its rows.  (`Ckpt` carries the side conditions
-`PtSelf` / `FreshM` of the replay theorems, `DESIGN.md` 11.10.) -/
+`PtSelf` / `FreshM` of the replay theorems; they hold in every database reached from CREATE DATABASE,
+also once the page table has split: `C02_side_conditions_hold_in_every_reachable_database`.) -/
 theorem C08_accepted_values_survive_a_crash {sch : Levels} {db dbN : Engine.DB} {sdb sdbN : Spec.SDB}
     {stmts : List EStmt} {pt : Levels} {tbls : List (Bytes × Levels)} (h : Ckpt sch db sdb pt tbls)
     (run : SpecRun sch db sdb stmts dbN sdbN) (o1 o2 : List Nat) :
